@@ -3,6 +3,10 @@ import PycsepVerif.Model.PairedTests
 import PycsepVerif.Model.PairedPub
 import PycsepVerif.Proofs.RealInst
 import PycsepVerif.Proofs.Soft64Round
+import PycsepVerif.Proofs.FloatSumExact
+import PycsepVerif.Proofs.PairedRanks
+import PycsepVerif.Proofs.PairedTies
+import PycsepVerif.Properties.C20_Paired
 /-!
 # Source tie of C08: `_t_test_ndarray` generated from the Python source equals the hand model (Model/PairedTests.lean)
 
@@ -211,5 +215,311 @@ theorem wStatsPub_eq_src (lg : Rat → Rat) (ter1 ter2 : List Rat × Rat) (nObs 
     wStatsPub (ter1.1.map lg) (ter2.1.map lg) n1 n2 (nObs : Rat)
       = wStats (Src.w_test_inputs lg ter1 ter2 nObs n1 n2).1 (Src.w_test_inputs lg ter1 ter2 nObs n1 n2).2 := by
   rw [w_test_inputs_eq_model lg ter1 ter2 nObs n1 n2 h]; rfl
+
+
+/-! ## `_w_test_ndarray` (poisson_evaluations.py:517-579): the Wilcoxon signed-rank core
+
+Soft64 layer up to the variance term (`d = x - m`, zero removal, SciPy's rank algorithm, the two rank sums by numpy's pairwise
+summation, the count products in float64, the tie correction from `numpy.unique(r, return_counts=True)` in int64), real layer
+from `numpy.sqrt(se / 24)` on (declared in TARGETS: `real_from`). All float operations before the switch are shown EXACT. -/
+section WTest
+open Soft64
+
+theorem fl64_natCast_le {n : ℕ} (h : n ≤ 2 ^ 53) : fl64 (n : ℚ) = n := by
+  have := Soft64R.fl64_intCast (n := (n : ℤ)) (by rw [abs_of_nonneg (by positivity)]; exact_mod_cast h)
+  simpa using this
+
+theorem w_i2f_nat {n : ℕ} (h : n ≤ 2 ^ 53) : Py.i2f (n : ℤ) = n := by
+  unfold Py.i2f; simpa using fl64_natCast_le h
+
+/-- `count * (count + 1.) * 0.25` and `count * (count + 1.) * (2. * count + 1.)` in float64 are exact when the latter is
+    at most 2^52 -/
+theorem w_count_terms (c : ℕ) (hc : c * (c + 1) * (2 * c + 1) ≤ 2 ^ 52) :
+    fmul (fmul (Py.i2f (c : ℤ)) (fadd (Py.i2f (c : ℤ)) 1)) (1 / 4) = ((c * (c + 1) : ℕ) : ℚ) / 4 ∧
+    fmul (fmul (Py.i2f (c : ℤ)) (fadd (Py.i2f (c : ℤ)) 1)) (fadd (fmul 2 (Py.i2f (c : ℤ))) 1)
+      = ((c * (c + 1) * (2 * c + 1) : ℕ) : ℚ) := by
+  have hA : c * (c + 1) ≤ c * (c + 1) * (2 * c + 1) := Nat.le_mul_of_pos_right _ (by omega)
+  have hB : c ≤ c * (c + 1) := Nat.le_mul_of_pos_right _ (by omega)
+  have hB2 : 2 * c ≤ c * (c + 1) := by
+    rcases Nat.eq_zero_or_pos c with h | h
+    · simp [h]
+    · nlinarith
+  have h0 : c ≤ 2 ^ 52 := by linarith
+  have h1 : c ≤ 2 ^ 53 := by linarith
+  have h2 : c + 1 ≤ 2 ^ 53 := by linarith
+  have h3 : c * (c + 1) ≤ 2 ^ 53 := by linarith
+  have h4 : 2 * c ≤ 2 ^ 53 := by linarith
+  have h5 : 2 * c + 1 ≤ 2 ^ 53 := by linarith
+  have h6 : c * (c + 1) * (2 * c + 1) ≤ 2 ^ 53 := by linarith
+  have e1 : fadd (c : ℚ) 1 = ((c + 1 : ℕ) : ℚ) := by
+    unfold fadd; rw [← fl64_natCast_le h2]; push_cast; rfl
+  have e2 : fmul (c : ℚ) ((c + 1 : ℕ) : ℚ) = ((c * (c + 1) : ℕ) : ℚ) := by
+    unfold fmul; rw [← fl64_natCast_le h3]; push_cast; rfl
+  have e3 : fmul 2 (c : ℚ) = ((2 * c : ℕ) : ℚ) := by
+    unfold fmul; rw [← fl64_natCast_le h4]; push_cast; rfl
+  have e4 : fadd ((2 * c : ℕ) : ℚ) 1 = ((2 * c + 1 : ℕ) : ℚ) := by
+    unfold fadd; rw [← fl64_natCast_le h5]; push_cast; rfl
+  have e5 : fmul ((c * (c + 1) : ℕ) : ℚ) ((2 * c + 1 : ℕ) : ℚ) = ((c * (c + 1) * (2 * c + 1) : ℕ) : ℚ) := by
+    unfold fmul; rw [← fl64_natCast_le h6]; push_cast; rfl
+  have e6 : fmul ((c * (c + 1) : ℕ) : ℚ) (1 / 4) = ((c * (c + 1) : ℕ) : ℚ) / 4 := by
+    unfold fmul
+    have := Soft64R.fl64_exact (m := ((c * (c + 1) : ℕ) : ℤ)) (j := -2)
+      (by rw [abs_of_nonneg (by positivity)]; exact_mod_cast h3) (by norm_num)
+    have p : pow2 (-2) = 1 / 4 := by decide +kernel
+    rw [p] at this
+    have e : (((c * (c + 1) : ℕ) : ℤ) : ℚ) = ((c * (c + 1) : ℕ) : ℚ) := by push_cast; ring
+    rw [e] at this
+    rw [this]; ring
+  rw [w_i2f_nat h1, e1, e2, e3, e4, e5, e6]
+  exact ⟨rfl, rfl⟩
+
+theorem w_np_abs_eq (a : ℚ) : Py.np_abs a = absQ a := rfl
+
+theorem mask_terms (p : ℚ → Bool) (g : ℚ → ℕ) : ∀ d : List ℚ,
+    (∀ x ∈ d.map (fun a => Py.bool_mul (p a) ((g a : ℚ) / 2)), FloatSum.HalfInt x) ∧
+    FloatSum.absSum (d.map (fun a => Py.bool_mul (p a) ((g a : ℚ) / 2))) ≤ (((d.map g).sum : ℕ) : ℚ) / 2 ∧
+    (d.map (fun a => Py.bool_mul (p a) ((g a : ℚ) / 2))).sum = (((d.map (fun a => if p a then g a else 0)).sum : ℕ) : ℚ) / 2
+  | [] => by simp [FloatSum.absSum]
+  | a :: d => by
+    obtain ⟨h1, h2, h3⟩ := mask_terms p g d
+    refine ⟨?_, ?_, ?_⟩
+    · intro x hx
+      simp only [List.map_cons, List.mem_cons] at hx
+      rcases hx with rfl | hx
+      · unfold Py.bool_mul
+        split
+        · exact ⟨(g a : ℤ), by push_cast; rfl⟩
+        · exact FloatSum.HalfInt.zero
+      · exact h1 x hx
+    · simp only [List.map_cons, List.sum_cons, FloatSum.absSum] at h2 ⊢
+      have hg : (0 : ℚ) ≤ (g a : ℚ) / 2 := by positivity
+      have : fabs (Py.bool_mul (p a) ((g a : ℚ) / 2)) ≤ (g a : ℚ) / 2 := by
+        unfold Py.bool_mul fabs
+        split <;> split <;> linarith
+      rw [Nat.cast_add]
+      linarith
+    · simp only [List.map_cons, List.sum_cons, h3]
+      unfold Py.bool_mul
+      split <;> (push_cast; ring)
+
+/-- a rank sum `numpy.sum((d > 0) * r)` of `_w_test_ndarray` is exact -/
+theorem rank_sum_exact (p : ℚ → Bool) (d : List ℚ) (hb : d.length * (d.length + 1) ≤ 2 ^ 53) :
+    Py.np_sum_f64 (List.zipWith (fun x_ y_ => Py.bool_mul x_ y_) (d.map p)
+        (Py.rankdata (d.map (fun x_ => Py.np_abs x_))))
+      = (((d.map (fun a => if p a then rank2 (d.map absQ) (absQ a) else 0)).sum : ℕ) : ℚ) / 2 := by
+  have hr : Py.rankdata (d.map (fun x_ => Py.np_abs x_))
+      = d.map (fun a => ((rank2 (d.map absQ) (absQ a) : ℕ) : ℚ) / 2) := by
+    unfold Py.rankdata
+    rw [PairedTests.rankdata2_eq]
+    simp [List.map_map, Function.comp, w_np_abs_eq]
+  rw [hr]
+  have hz : List.zipWith (fun x_ y_ => Py.bool_mul x_ y_) (d.map p)
+      (d.map (fun a => ((rank2 (d.map absQ) (absQ a) : ℕ) : ℚ) / 2))
+      = d.map (fun a => Py.bool_mul (p a) (((rank2 (d.map absQ) (absQ a) : ℕ) : ℚ) / 2)) := by
+    simp [List.zipWith_map_left, List.zipWith_map_right, List.zipWith_self]
+  rw [hz]
+  obtain ⟨h1, h2, h3⟩ := mask_terms p (fun a => rank2 (d.map absQ) (absQ a)) d
+  have hs : (d.map (fun a => rank2 (d.map absQ) (absQ a))).sum = d.length * (d.length + 1) := by
+    have := PairedTests.sum_rank2 (d.map absQ)
+    simpa [List.map_map, Function.comp_def] using this
+  rw [hs] at h2
+  have hb' : FloatSum.absSum (d.map (fun a => Py.bool_mul (p a) (((rank2 (d.map absQ) (absQ a) : ℕ) : ℚ) / 2))) ≤ 2 ^ 52 := by
+    refine le_trans h2 ?_
+    have : ((d.length * (d.length + 1) : ℕ) : ℚ) ≤ 2 ^ 53 := by exact_mod_cast hb
+    linarith
+  unfold Py.np_sum_f64
+  rw [FloatSum.pairwiseSum_exact_of_dyadic 64 _ h1 hb', h3]
+
+theorem compress_map_filter {β : Type} (p : β → Bool) : ∀ l : List β, Py.compress (l.map p) l = l.filter p
+  | [] => rfl
+  | a :: l => by
+    have ih := compress_map_filter p l
+    unfold Py.compress at ih ⊢
+    simp only [List.map_cons, List.zip_cons_cons, List.filterMap_cons, List.filter_cons]
+    cases p a <;> simp [ih]
+
+theorem sumInt_eq (l : List ℤ) : Py.sumInt l = l.sum := by
+  unfold Py.sumInt
+  rw [List.sum_eq_foldl]
+
+theorem nodup_eraseDups_nat : ∀ (n : Nat) (l : List ℕ), l.length ≤ n → l.eraseDups.Nodup
+  | 0, l, h => by
+    have : l = [] := List.length_eq_zero_iff.mp (by omega)
+    subst this; simp
+  | n + 1, [], _ => by simp
+  | n + 1, a :: as, h => by
+    rw [List.eraseDups_cons, List.nodup_cons]
+    constructor
+    · intro hm
+      have := List.mem_eraseDups.mp hm
+      simp at this
+    · apply nodup_eraseDups_nat n
+      have := List.length_filter_le (fun b => !b == a) as
+      simp only [List.length_cons] at h
+      omega
+
+theorem cast_tie_sum : ∀ L : List ℕ,
+    (((L.map (fun (n : ℕ) => (n : ℤ))).filter (fun t => decide (t > 1))).map (fun t => t * (t * t - 1))).sum
+      = ((((L.filter (fun t => decide (t > 1))).map (fun t => t * (t * t - 1))).sum : ℕ) : ℤ)
+  | [] => by simp
+  | t :: L => by
+    have ih := cast_tie_sum L
+    by_cases ht : t > 1
+    · have h1 : ((t : ℤ) > 1) := by exact_mod_cast ht
+      have h2 : 1 ≤ t * t := by nlinarith
+      simp only [List.map_cons, List.filter_cons, h1, ht, decide_true, if_true, List.sum_cons, ih]
+      push_cast [Nat.cast_sub h2]
+      ring
+    · have h1 : ¬ ((t : ℤ) > 1) := by exact_mod_cast ht
+      simp only [List.map_cons, List.filter_cons, h1, ht, decide_false, Bool.false_eq_true, if_false, ih]
+
+/-- the tie correction as the source computes it (`numpy.unique` counts of the ranks, `repnum[repnum > 1]`, int64 arithmetic)
+    is the model's `tieTerm` -/
+theorem tie_sum_eq (l : List ℚ) :
+    let repnum := Py.unique_counts (Py.rankdata l)
+    let repnum := Py.compress (repnum.map (fun x_ => decide (x_ > (1 : ℤ)))) repnum
+    Py.sumInt (List.zipWith (fun x_ y_ => x_ * y_) repnum
+        (List.map (fun x_ => x_ - (1 : ℤ)) (List.zipWith (fun x_ y_ => x_ * y_) repnum repnum)))
+      = (tieTerm l : ℤ) ∧ (Py.size repnum = 0 → tieTerm l = 0) := by
+  intro repnum0 repnum
+  have hrep : repnum = repnum0.filter (fun t => decide (t > 1)) := compress_map_filter _ _
+  have hz : List.zipWith (fun x_ y_ => x_ * y_) repnum
+      (List.map (fun x_ => x_ - (1 : ℤ)) (List.zipWith (fun x_ y_ => x_ * y_) repnum repnum))
+      = repnum.map (fun t => t * (t * t - 1)) := by
+    simp [List.zipWith_map_right, List.zipWith_self]
+  -- the counts, up to order, are those of the doubled ranks
+  let r2 := l.map (rank2 l)
+  let f : ℕ → ℚ := fun n => (n : ℚ) / 2
+  have hf : Function.Injective f := by
+    intro a b h
+    simp only [f] at h
+    have : (a : ℚ) = b := by linarith
+    exact_mod_cast this
+  have hr : Py.rankdata l = r2.map f := by
+    unfold Py.rankdata; rw [PairedTests.rankdata2_eq]
+  have hA : ((Py.rankdata l).mergeSort (fun a b => decide (a ≤ b))).eraseDups.Perm (Py.rankdata l).eraseDups :=
+    PermInv.Concrete.eraseDups_perm (List.mergeSort_perm _ _)
+  have hB : (Py.rankdata l).eraseDups.Perm (r2.eraseDups.map f) := by
+    refine (List.perm_ext_iff_of_nodup (PermInv.Concrete.nodup_eraseDups _ _ le_rfl)
+      ((nodup_eraseDups_nat _ _ le_rfl).map hf)).mpr (fun a => ?_)
+    rw [List.mem_eraseDups, hr, List.mem_map, List.mem_map]
+    constructor
+    · rintro ⟨n, hn, rfl⟩; exact ⟨n, List.mem_eraseDups.mpr hn, rfl⟩
+    · rintro ⟨n, hn, rfl⟩; exact ⟨n, List.mem_eraseDups.mp hn, rfl⟩
+  have hC : repnum0.Perm ((r2.eraseDups.map (fun v => r2.count v)).map (fun (n : ℕ) => (n : ℤ))) := by
+    have h1 := ((hA.trans hB).map (fun v => (((Py.rankdata l).count v : ℕ) : ℤ)))
+    have h2 : (r2.eraseDups.map f).map (fun v => (((Py.rankdata l).count v : ℕ) : ℤ))
+        = (r2.eraseDups.map (fun v => r2.count v)).map (fun (n : ℕ) => (n : ℤ)) := by
+      simp only [List.map_map]
+      apply List.map_congr_left
+      intro n _
+      simp only [Function.comp, hr, List.count_map_of_injective _ _ hf]
+    rw [h2] at h1
+    exact h1
+  have hD := ((hC.filter (fun t => decide (t > 1))).map (fun t => t * (t * t - 1))).sum_eq
+  have hT : (tieTerm l : ℤ) = ((((r2.eraseDups.map (fun v => r2.count v)).map (fun (n : ℕ) => (n : ℤ))).filter
+      (fun t => decide (t > 1))).map (fun t => t * (t * t - 1))).sum := by
+    rw [cast_tie_sum, ← PairedTests.tieTermRanks_eq]
+    rfl
+  refine ⟨?_, ?_⟩
+  · rw [hz, sumInt_eq, hrep, hD, hT]
+  · intro h0
+    have hnil : repnum = [] := by
+      have : repnum.length = 0 := by simpa [Py.size] using h0
+      exact List.length_eq_zero_iff.mp this
+    have : (tieTerm l : ℤ) = 0 := by
+      rw [hT, ← hD, ← hrep, hnil]; rfl
+    exact_mod_cast this
+
+/-- **`_w_test_ndarray(x, m)`** (float64 differences): the generated definition — float64 / int64 arithmetic up to the
+    variance term, real operations from `numpy.sqrt(se / 24)` on — is the model: the exact statistics `wStats x m` (count,
+    rank sum T, mean, variance term with the tie correction) put through `wZ` and `wP`. Hypothesis: the number `c` of non-zero
+    differences satisfies `c(c+1)(2c+1) ≤ 2^52` (c ≤ 131 000), so that the float products of the counts are exact; the rank
+    sums by `numpy.sum` are exact by `FloatSum.pairwiseSum_exact_of_dyadic`. -/
+theorem w_test_ndarray_eq_model {α : Type} [RealOps α] (sf : α → α) (x : List ℚ) (m : ℚ)
+    (hc : (wStats x m).count * ((wStats x m).count + 1) * (2 * (wStats x m).count + 1) ≤ 2 ^ 52) :
+    Src.w_test_ndarray sf x m =
+      (let s := wStats x m
+       let z := wZ (Py.rOfRat ((s.t2 : ℚ) / 2) : α) (Py.rOfRat ((s.mn4 : ℚ) / 4)) (Py.rOfRat s.se24)
+       (z, wP sf z)) := by
+  -- the differences after the zero removal
+  set d := removeZeros (x.map (fun a => fsub a m)) with hd
+  have hcnt : (wStats x m).count = d.length := rfl
+  rw [hcnt] at hc
+  have hdd : Py.compress_ne0 (List.map (fun x_ => fsub x_ m) x) = d := rfl
+  obtain ⟨emn, ese⟩ := w_count_terms d.length hc
+  have hA : d.length * (d.length + 1) ≤ d.length * (d.length + 1) * (2 * d.length + 1) :=
+    Nat.le_mul_of_pos_right _ (by omega)
+  have hb53 : d.length * (d.length + 1) ≤ 2 ^ 53 := by linarith
+  have eP := rank_sum_exact (fun x_ => decide (x_ > (0 : ℚ))) d hb53
+  have eM := rank_sum_exact (fun x_ => decide (x_ < (0 : ℚ))) d hb53
+  obtain ⟨eT, eT0⟩ := tie_sum_eq (d.map (fun x_ => Py.np_abs x_))
+  unfold Src.w_test_ndarray
+  simp only [hdd, Py.size, eP, eM, emn, ese]
+  simp only [eT]
+  have hl : List.map (fun x_ => Py.np_abs x_) d = d.map absQ := rfl
+  rw [hl] at eT0 ⊢
+  have hT2 : Py.fmin
+      (((List.map (fun a => if decide (a > 0) = true then rank2 (List.map absQ d) (absQ a) else 0) d).sum : ℕ) / 2 : ℚ)
+      (((List.map (fun a => if decide (a < 0) = true then rank2 (List.map absQ d) (absQ a) else 0) d).sum : ℕ) / 2 : ℚ)
+      = (((wStats x m).t2 : ℕ) : ℚ) / 2 := by
+    have e1 : (List.map (fun a => if decide (a > 0) = true then rank2 (List.map absQ d) (absQ a) else 0) d).sum = rPlus2 d := by
+      unfold rPlus2; simp only [decide_eq_true_eq, gt_iff_lt]
+    have e2 : (List.map (fun a => if decide (a < 0) = true then rank2 (List.map absQ d) (absQ a) else 0) d).sum = rMinus2 d := by
+      unfold rMinus2; simp only [decide_eq_true_eq]
+    have e3 : (wStats x m).t2 = min (rPlus2 d) (rMinus2 d) := rfl
+    rw [e1, e2, e3]
+    unfold Py.fmin
+    by_cases h : rMinus2 d < rPlus2 d
+    · have : ((rMinus2 d : ℕ) : ℚ) / 2 < ((rPlus2 d : ℕ) : ℚ) / 2 := by
+        have : ((rMinus2 d : ℕ) : ℚ) < ((rPlus2 d : ℕ) : ℚ) := by exact_mod_cast h
+        linarith
+      rw [if_pos this, Nat.min_eq_right (le_of_lt h)]
+    · have : ¬ ((rMinus2 d : ℕ) : ℚ) / 2 < ((rPlus2 d : ℕ) : ℚ) / 2 := by
+        intro hh
+        have : ((rMinus2 d : ℕ) : ℚ) < ((rPlus2 d : ℕ) : ℚ) := by linarith
+        exact h (by exact_mod_cast this)
+      rw [if_neg this, Nat.min_eq_left (not_lt.mp h)]
+  have hSE : (if decide ((↑(Py.compress
+                (List.map (fun x_ => decide (x_ > 1)) (Py.unique_counts (Py.rankdata (List.map absQ d))))
+                (Py.unique_counts (Py.rankdata (List.map absQ d)))).length : ℤ) ≠ 0) = true then
+        fsub (↑(d.length * (d.length + 1) * (2 * d.length + 1)))
+          (fmul (1 / 2) (Py.i2f ↑(tieTerm (List.map absQ d))))
+      else (↑(d.length * (d.length + 1) * (2 * d.length + 1)) : ℚ)) = (wStats x m).se24 := by
+    have e0 : (wStats x m).se24 = ((d.length * (d.length + 1) * (2 * d.length + 1) : ℕ) : ℚ)
+        - ((tieTerm (d.map absQ) : ℕ) : ℚ) / 2 := rfl
+    rw [e0]
+    have hTle := PairedTests.tieTerm_le _ (d.map absQ) rfl
+    rw [List.length_map] at hTle
+    have hcube : d.length * d.length * d.length ≤ d.length * (d.length + 1) * (2 * d.length + 1) := by nlinarith
+    have hTC : tieTerm (d.map absQ) ≤ d.length * (d.length + 1) * (2 * d.length + 1) := by omega
+    have hT53 : tieTerm (d.map absQ) ≤ 2 ^ 53 := by omega
+    by_cases hz : ((Py.compress
+                (List.map (fun x_ => decide (x_ > 1)) (Py.unique_counts (Py.rankdata (List.map absQ d))))
+                (Py.unique_counts (Py.rankdata (List.map absQ d)))).length : ℤ) = 0
+    · have h0 := eT0 (by simpa [Py.size] using hz)
+      simp [hz, h0]
+    · simp only [ne_eq, hz, not_false_eq_true, decide_true, if_true]
+      rw [w_i2f_nat hT53]
+      have hCq : ((d.length * (d.length + 1) * (2 * d.length + 1) : ℕ) : ℚ) ≤ 2 ^ 52 := by exact_mod_cast hc
+      have hTq : ((tieTerm (d.map absQ) : ℕ) : ℚ) ≤ ((d.length * (d.length + 1) * (2 * d.length + 1) : ℕ) : ℚ) := by
+        exact_mod_cast hTC
+      have hT0 : (0 : ℚ) ≤ ((tieTerm (d.map absQ) : ℕ) : ℚ) := by positivity
+      have e1 : fmul (1 / 2) ((tieTerm (d.map absQ) : ℕ) : ℚ) = ((tieTerm (d.map absQ) : ℕ) : ℚ) / 2 := by
+        unfold fmul
+        have : (1 / 2 : ℚ) * ((tieTerm (d.map absQ) : ℕ) : ℚ) = ((tieTerm (d.map absQ) : ℕ) : ℚ) / 2 := by ring
+        rw [this]
+        apply FloatSum.fl64_half_int ⟨(tieTerm (d.map absQ) : ℤ), by push_cast; rfl⟩
+        rw [abs_of_nonneg (by positivity)]
+        linarith
+      rw [e1]
+      unfold fsub
+      apply FloatSum.fl64_half_int
+      · exact ⟨2 * (d.length * (d.length + 1) * (2 * d.length + 1) : ℕ) - (tieTerm (d.map absQ) : ℕ), by push_cast; ring⟩
+      · rw [abs_of_nonneg (by linarith)]
+        linarith
+  rw [hT2, hSE]
+  rfl
+end WTest
 
 end Src
